@@ -51,6 +51,10 @@ def feeStep (s : State) (j : Json) : Except String (State × Json × List Fired)
   else
     if ibal != (List.range nacct).map (fun a => s.denoms.map (s.bal a)) then
       fired := fired ++ [{ name := "rejected_request_moved_coins", detail := Json.null }]
+    -- a request the payer could afford but whose fees exceed the caller's limit in some denom is refused BY THE FEE CHECK
+    -- (not by whatever happens to fail later once the coins have been taken)
+    if !(geAll s limit cost) && geAll s (s.bal payer) cost && ierr != Generated.Err.oracle_ErrNotEnoughFee then
+      fired := fired ++ [{ name := "over_limit_request_not_refused_by_the_fee_check", detail := mkObj [("err", js ierr), ("cost", coinsJson s cost), ("limit", coinsJson s limit)] }]
     if geAll s limit cost && geAll s (s.bal payer) cost && (ierr == Generated.Err.oracle_ErrNotEnoughFee || ierr == "sdk/5") then
       fired := fired ++ [{ name := "affordable_request_rejected_for_fees", detail := mkObj [("err", js ierr)] }]
   pure (s', mout, fired)
